@@ -118,6 +118,10 @@ def gen(rng, tier, quarantine=()):
         return gen_twin_closures(rng)
     if "no-change-in-mid-call" not in quarantine and rng.random() < 0.06:
         return gen_mid_call(rng)
+    if "no-change-in-mid-call" not in quarantine and "no-generators" not in quarantine and rng.random() < 0.04:
+        from .c17 import gen_change_inside_generator
+
+        return gen_change_inside_generator(rng, tier, inv="C05.exactly_once")
     fns = rng.sample(FNS, rng.choice([1, 2, 2, 3]))
     nprobes = rng.randint(2, 4)
     kinds = {}
